@@ -150,3 +150,34 @@ Fixpoint history_select (k : Z) (screen : list splate) (batch_ids : list Z) (tab
       | Some i => dor tl <- history_select k screen (batch_ids ++ [i]) rest; Ok (eo :: tl)
       end
   end.
+
+(* ---- vocabulary used to state the property (not extracted) ---- *)
+From Coq Require Import Permutation.
+
+(* number of plates of sample c in a list of plates *)
+Definition cnt (c : Z) (l : list plate) : Z :=
+  Z.of_nat (length (filter (fun p => sample_of p =? c) l)).
+
+(* a state within a batch: (plates in the batch, unobserved plates not in the batch) *)
+Definition state : Type := (list plate * list plate)%type.
+
+(* one selection: ANY plate the policy allows may be the one with the best score; it moves from the
+   remaining plates to the batch.  The lists are taken up to permutation, which covers the batch in
+   selection order (direct use) as well as in screen order (what select_next_plate builds). *)
+Inductive step (k : Z) : state -> state -> Prop :=
+| step_intro b r el p b' r' :
+    filter_eligible k b r = Ok el -> In p el ->
+    Permutation b' (p :: b) -> Permutation r (p :: r') ->
+    step k (b, r) (b', r').
+
+(* every state of every selection history that starts with the empty batch *)
+Inductive reachable (k : Z) (unobserved : list plate) : state -> Prop :=
+| reach_init : reachable k unobserved ([], unobserved)
+| reach_step s s' : reachable k unobserved s -> step k s s' -> reachable k unobserved s'.
+
+(* batch id lists produced by iterating select_next_plate (any score table at each call) *)
+Inductive sel_hist (k : Z) (screen : list splate) : list Z -> Prop :=
+| sel_nil : sel_hist k screen []
+| sel_snoc ids scores el i :
+    sel_hist k screen ids -> select_next k screen scores ids = Ok (el, Some i) ->
+    sel_hist k screen (ids ++ [i]).
